@@ -15,6 +15,7 @@ mod c16;
 mod c07;
 mod c13;
 mod c12;
+mod stats;
 use util::*;
 
 fn main() {
@@ -74,13 +75,13 @@ fn main() {
                 "C14" => c14::corr(&mut ctx),
                 "C20" => c20::corr(&mut ctx),
                 "C02" => c02::corr(&mut ctx),
-                "C01" => c02::corr_opts(&mut ctx, false),
+                "C01" => { c02::corr_opts(&mut ctx, false); stats::pmh_statistics(&mut ctx); }
                 "C04" => {
                     c04::corr_smh(&mut ctx);
                     ssk::corr_sets(&mut ctx);
                     dens::corr(&mut ctx)
                 }
-                "C03" => c04::corr_smh(&mut ctx),
+                "C03" => { c04::corr_smh(&mut ctx); stats::smh_statistics(&mut ctx); }
                 "C05" => {
                     ssk::corr_merge(&mut ctx);
                     c04::corr_smh(&mut ctx)
@@ -103,8 +104,9 @@ fn main() {
                     ssk::corr_sets(&mut ctx)
                 }
                 "C09" | "DENS" => dens::corr(&mut ctx),
-                "C08" => { dens::corr(&mut ctx); dens::selection_oracles(&mut ctx); }
-                "C11" | "C10" | "ORD" => ord::corr(&mut ctx),
+                "C08" => { dens::corr(&mut ctx); dens::selection_oracles(&mut ctx); stats::dens_statistics(&mut ctx); }
+                "C11" | "ORD" => ord::corr(&mut ctx),
+                "C10" => { ord::corr(&mut ctx); ord::omh_statistics(&mut ctx); }
                 "SSK" => {
                     ssk::corr_sets(&mut ctx);
                     ssk::corr_merge(&mut ctx)
